@@ -68,7 +68,7 @@ def exec_raster(c):
              z=np.array([p[2] for p in pos], dtype=np.float32), r=np.array(rad, dtype=np.float32))
     res = [Fraction(a, b) for a, b in c["res"]]
     arg = float(res[0]) if res[0] == res[1] == res[2] and lib.vid(c) % 2 else [float(r) for r in res]
-    tf = lib.reused(ToImageStack(arg), c)
+    tf = lib.reused(ToImageStack(arg), c, t)
     snap = lib.snapshot(t)
     stack = tf(t)
     saved_ok = 1
